@@ -25,6 +25,15 @@ M = 'FIX8::Message::'
 def run(ctx):
     prog = Program(UNITS)
     ctx.units.update(UNITS)
+    rules(ctx, prog)
+    ctx.floor('R07.2', 4)
+    ctx.floor('R07.3', 4)
+
+
+def rules(ctx, prog, rid=None):
+    """the checksum-routine rules; rid renames the rule ids when another property (C02: the CheckSum field of every encoded message)
+    depends on the same routine"""
+    R = (lambda r: rid) if rid else (lambda r: r)
     f = prog.fn1(M + 'calc_chksum', sig='const char *, const size_t')
     ctx.saw(f)
     cfg = f.cfg
@@ -37,7 +46,7 @@ def run(ctx):
     ctx.need({'elen', 'eeii', 'ii'} <= set(locs), 'calc_chksum: word-parallel branch locals (elen, eeii, ii) not found — other configuration?')
     # from += offset
     adv = [n for (n, kind, val) in q.local_defs(f, pfrom) if kind == 'opassign' and val is not None and q.refers_to_decl(val, poff)]
-    ctx.check(len(adv) == 1, 'R07.1', M + 'calc_chksum#start', f.loc, 'scan starts at from + offset')
+    ctx.check(len(adv) == 1, R('R07.1'), M + 'calc_chksum#start', f.loc, 'scan starts at from + offset')
     # elen
     e = locs['elen'][1]
     co = [x for x in e.walk() if x.k == 'ConditionalOperator']
@@ -52,7 +61,7 @@ def run(ctx):
             else:
                 why = ('with no length given the routine scans `%s` bytes starting at from+offset; "the remainder of the buffer" is sz - offset '
                        '(reads %s byte(s) past the end and sums them)' % (lf, 'offset'))
-    ctx.check(ok, 'R07.1', M + 'calc_chksum#remainder-length', e.loc, 'effective length = len, or sz - offset when no length is given', why)
+    ctx.check(ok, R('R07.1'), M + 'calc_chksum#remainder-length', e.loc, 'effective length = len, or sz - offset when no length is given', why)
     # word loop
     fors = [n for n in f.all_nodes() if n.k == 'ForStmt']
     ctx.need(len(fors) == 2, 'calc_chksum: expected word loop + tail loop')
@@ -65,10 +74,10 @@ def run(ctx):
     ctx.need(len(loads) == 1 and S is not None, 'calc_chksum: word load / stride not recognised')
     wt = loads[0].type
     wbytes = wt['bits'] // 8
-    ctx.check(S == wbytes, 'R07.2', M + 'calc_chksum#stride', wl.loc, 'word loop advances by the size of the word it loads (%d)' % wbytes,
+    ctx.check(S == wbytes, R('R07.2'), M + 'calc_chksum#stride', wl.loc, 'word loop advances by the size of the word it loads (%d)' % wbytes,
               'word loop advances by %s but loads %d-byte words' % (S, wbytes))
     la = q.linear(loads[0].children[0].strip().children[0], sym=lambda x: 'FROM' if q.refers_to_decl(x, pfrom) else 'II' if q.refers_to_decl(x, iid) else x.text())
-    ctx.check(la.t == {'FROM': 1, 'II': 1} and la.c == 0, 'R07.2', M + 'calc_chksum#load-address', loads[0].loc, 'the word is loaded from from + ii')
+    ctx.check(la.t == {'FROM': 1, 'II': 1} and la.c == 0, R('R07.2'), M + 'calc_chksum#load-address', loads[0].loc, 'the word is loaded from from + ii')
     ee = locs['eeii'][1]
     lf = None
     mods = [x for x in ee.walk() if x.k == 'BinaryOperator' and x.op == '%']
@@ -81,22 +90,26 @@ def run(ctx):
         shape = top.k == 'BinaryOperator' and top.op == '-' and q.refers_to_decl(top.children[0], locs['elen'][0]) and \
             q.refers_to_decl(mods[0].children[0], locs['elen'][0])
     ctx.check(shape and K % wbytes == 0 and cond.k == 'BinaryOperator' and cond.op == '<' and q.refers_to_decl(cond.children[0], iid) and
-              q.refers_to_decl(cond.children[1], locs['eeii'][0]), 'R07.2', M + 'calc_chksum#word-bound', ee.loc,
+              q.refers_to_decl(cond.children[1], locs['eeii'][0]), R('R07.2'), M + 'calc_chksum#word-bound', ee.loc,
               'word loop runs while ii < elen - elen %% %s (a multiple of the word size)' % K)
     tc = tl.child('cond').strip(casts=True)
     tinc = tl.child('inc')
     tail_reads = [x for x in tinc.walk() if x.k == 'ArraySubscriptExpr' and q.refers_to_decl(x.children[0], pfrom)] if tinc is not None else []
     ctx.check(tc.k == 'BinaryOperator' and tc.op == '<' and q.refers_to_decl(tc.children[0], iid) and q.refers_to_decl(tc.children[1], locs['elen'][0]) and
               len(tail_reads) == 1 and any(q.refers_to_decl(x, iid) for x in tail_reads[0].children[1].walk() if x.k == 'DeclRefExpr') and tl.child('init') is None,
-              'R07.2', M + 'calc_chksum#tail', tl.loc, 'the byte loop continues with the same index up to elen, reading from[ii]')
+              R('R07.2'), M + 'calc_chksum#tail', tl.loc, 'the byte loop continues with the same index up to elen, reading from[ii]')
     # carries
-    fl = q.branches(f, lambda a: any(x.k == 'BinaryOperator' and x.op == '%' and q.refers_to_decl(x.children[0], iid) for x in a.walk()))
+    fl = q.branches(f, lambda a: any(x.k == 'BinaryOperator' and x.op in ('%', '&') and q.refers_to_decl(x.children[0], iid) for x in a.walk()))
     P = None
     for (b, a, pol) in fl:
         for x in a.walk():
             if x.k == 'BinaryOperator' and x.op == '%' and q.refers_to_decl(x.children[0], iid):
                 P = x.children[1].strip(casts=True).value
-    ctx.check(P is not None and P % S == 0 and P // S <= 255, 'R07.3', M + 'calc_chksum#flush-period', f.loc,
+            if x.k == 'BinaryOperator' and x.op == '&' and q.refers_to_decl(x.children[0], iid):
+                mk = x.children[1].strip(casts=True).value
+                if mk is not None and (mk & (mk + 1)) == 0:
+                    P = mk + 1          # (ii & (2^k - 1)) == 0  is  ii % 2^k == 0
+    ctx.check(P is not None and P % S == 0 and P // S <= 255, R('R07.3'), M + 'calc_chksum#flush-period', f.loc,
               'carry counters are flushed every %s bytes = %s iterations (<= 255, so a byte lane cannot carry into its neighbour)' % (P, (P // S) if P else None),
               'carry counters are flushed every %s bytes = %s word additions: more than 255 carries can accumulate in one byte lane' % (P, (P // S) if P else None))
     mask = locs.get('OVERFLOW_MASK')
@@ -104,14 +117,14 @@ def run(ctx):
     if mv is None and mask:
         mv = f.tu.decls[mask[0]].get('cv')
     want = sum(1 << (8 * j) for j in range(1, wbytes))
-    ctx.check(mv == want, 'R07.3', M + 'calc_chksum#mask', f.loc, 'OVERFLOW_MASK = 0x%x: one bit at each lane boundary' % want, 'OVERFLOW_MASK is %s, expected 0x%x' % (mv, want))
+    ctx.check(mv == want, R('R07.3'), M + 'calc_chksum#mask', f.loc, 'OVERFLOW_MASK = 0x%x: one bit at each lane boundary' % want, 'OVERFLOW_MASK is %s, expected 0x%x' % (mv, want))
     col = [c for c in f.calls() if c.callee is not None and 'collapse' in c.callee.get('n', '')]
     ctx.need(col, 'collapse helper not called')
     cf = prog.fns(col[0].callee_qp)
     ctx.need(cf, 'collapse helper body not found')
     shifts = sorted(x.children[1].strip(casts=True).value for x in cf[0].all_nodes() if x.k == 'BinaryOperator' and x.op == '>>')
     plus = [x for x in cf[0].all_nodes() if x.k == 'BinaryOperator' and x.op == '+']
-    ctx.check(shifts == [8 * j for j in range(1, wbytes)] and len(plus) == wbytes - 1, 'R07.3', col[0].callee_qp + '#lanes', cf[0].loc,
+    ctx.check(shifts == [8 * j for j in range(1, wbytes)] and len(plus) == wbytes - 1, R('R07.3'), col[0].callee_qp + '#lanes', cf[0].loc,
               'collapse adds all %d byte lanes (shifts %s)' % (wbytes, shifts))
     rets = [n for n in f.all_nodes() if n.k == 'ReturnStmt']
     okr = False
@@ -119,6 +132,4 @@ def run(ctx):
         s = rets[0].children[0].strip(casts=True)
         okr = s.k == 'BinaryOperator' and s.op == '&' and s.children[1].strip(casts=True).value == 0xff and \
             s.children[0].strip(casts=True).k == 'BinaryOperator' and s.children[0].strip(casts=True).op == '-'
-    ctx.check(okr, 'R07.3', M + 'calc_chksum#reduce', f.loc, 'result = (word sum − carries) & 0xff')
-    ctx.floor('R07.2', 4)
-    ctx.floor('R07.3', 4)
+    ctx.check(okr, R('R07.3'), M + 'calc_chksum#reduce', f.loc, 'result = (word sum − carries) & 0xff')
